@@ -7,7 +7,7 @@
 (* deviation (dev).                                                         *)
 EXTENDS ClientStream, Json
 
-CONSTANTS MaxQ, MaxId, KaVals, MaxOps
+CONSTANTS MaxQ, MaxId, KaVals, MaxOps, XQs, XfrIds, XfrAll, QVars
 
 VARIABLES hist,    \* <<[op, proj, dproj]>>: the path so far
           dcur     \* the state record the code reaches under DevNames
@@ -15,9 +15,10 @@ VARIABLES hist,    \* <<[op, proj, dproj]>>: the path so far
 gvars == <<vars, hist, dcur>>
 
 Questions == 1..MaxQ
-GFrames == AlphabetOf(0..MaxId, Questions, KaVals)
+GFrames == AlphabetOf(0..MaxId, Questions, KaVals, QVars) \cup XfrAlphabetOf(XfrIds, XQs, IF XfrAll THEN XfrRecsAll ELSE XfrRecsFew)
 
-OutJson(o) == IF o.ok THEN [ok |-> o.f] ELSE [err |-> TRUE]
+OutJson(o) == IF o.why = "endmark" THEN [eof |-> TRUE]
+              ELSE IF o.ok THEN [ok |-> o.f] ELSE [err |-> TRUE]
 RECURSIVE MapOut(_)
 MapOut(sq) == IF sq = <<>> THEN <<>> ELSE <<OutJson(Head(sq))>> \o MapOut(Tail(sq))
 
@@ -35,7 +36,7 @@ GenInit == InitPred /\ hist = <<>> /\ dcur = InitStateDev(DevNames)
 
 GenNext ==
   /\ Len(hist) < MaxOps
-  /\ \E o \in OpsOf(Cur, Questions, GFrames) :
+  /\ \E o \in OpsOf(Cur, Questions \cup XQs, GFrames) :
        LET t == Apply(Cur, o)
            d == Apply(dcur, o)
        IN /\ Set(t)
@@ -63,7 +64,8 @@ EmitTransition == PrintT("CASE " \o CaseOf(hist'))
 EmitAtEnd == Len(hist') = MaxOps => PrintT("CASE " \o CaseOf(hist'))
 
 DoneClass == [r \in Reqs |-> IF done[r] = <<>> THEN "none"
-                             ELSE IF done[r][1].ok THEN "ok" ELSE "err"]
+                             ELSE IF ~Finished(done[r]) THEN "parts"
+                             ELSE IF done[r][Len(done[r])].ok THEN "ok" ELSE "err"]
 
 \* the path, the deviant twin, what was written and which message exactly
 \* was delivered do not influence what the transport does next
